@@ -402,8 +402,11 @@ spif_objpair_comp(spif_objpair_t self, spif_obj_t other)
 {
     SPIF_OBJ_COMP_CHECK_NULL(self, other);
     if (SPIF_OBJ_IS_OBJPAIR(other)) {
+        /* (Either pair may be without a key.) */
+        SPIF_OBJ_COMP_CHECK_NULL(self->key, SPIF_OBJPAIR(other)->key);
         return SPIF_OBJ_COMP(self->key, SPIF_OBJPAIR(other)->key);
     } else {
+        SPIF_OBJ_COMP_CHECK_NULL(self->key, other);
         return SPIF_OBJ_COMP(self->key, other);
     }
 }
